@@ -7,6 +7,10 @@ CFG = {
         'bitstr.CmpUpto': 'bitstr.CmpUpto(a, bitstr.New(s,from,to)) + inputs unchanged',
         'bitstr.StrCmpUpto': 'bitstr.StrCmpUpto(string(a), e) and bitstr.CmpUpto(a, e), e = bitstr.New(s,from,to), + inputs unchanged',
         'bitstr.New/decode': 'bitstr.New (its output must be a well-formed encoding that decodes to the bits of the range)',
+        'bitstr.Session/scribble': 'bitstr.New on every range in turn; [e, bitstr.Len(e), bitstr.Cmp(e, copy of previous e)] per step; the caller overwrites e[:cap(e)] with junk after each step',
+        'bitstr.Cmp/packed': 'bitstr.Cmp on VIEWS: both encodings copied back to back into a junk-filled arena: [Cmp(v1,v2), Cmp(v1,fresh2), Cmp(fresh1,v2), arena unchanged]',
+        'bitstr.CmpUpto/packed': 'bitstr.CmpUpto(keyview, encview) and bitstr.StrCmpUpto(string(key), encview), key and encoding adjacent views of one junk-filled arena, + arena unchanged',
+        'bitstr.CmpUpto/alias': 'for k = 0..len(e): bitstr.CmpUpto(e[:k], e) (the key is a view of e itself), bitstr.CmpUpto(copy, e), bitstr.StrCmpUpto(string(e[:k]), e); + e unchanged',
         'bitstr.CmpUpto/viaNew': 'bitstr.CmpUpto(a, e) and bitstr.Cmp(bitstr.New(a, 0, min(8*len(a), bitstr.Len(e))), e), e = bitstr.New(s,from,to)',
         'bitstr.CmpUpto/sorted': '[bitstr.CmpUpto(k, e) for k in keys], keys sorted by bytes.Compare, e = bitstr.New(s,from,to): spec values and non-decreasing'},
  'rule': 'bit strings are always given as (s, from, to) and encoded by the real New. cases = corpus + exhaustive sweeps (New and '
@@ -15,7 +19,7 @@ CFG = {
          'StrCmpUpto of plain strings of length <= 2 against those bit strings) + random pairs of strings of 0..20 bytes sharing '
          'prefixes (identical / one flipped bit / common prefix + tails / extension / last-byte low bits) with to drawn at the other '
          'side\'s length, byte boundaries and +-9 bits around it, from in the first byte, at to, aligned; plain a shorter / equal / '
-         'longer than the payload, flipped around bit to + a structured sweep (payload lengths 1..12 bytes x to in {8n,8n-3,8n-7} x every position of a single differing byte x len(a) in {i+1,n-1,n,n+1}; the same pairs through Cmp; long strings of 16..40 payload bytes differing at bytes 7,8,15,16,n-2,n-1). Every CmpUpto case is also run as Cmp(New(a,0,min(8*len(a),Len(e))),e) (viaNew). Sorted key sets: the 57 plain strings of length <= 2 (sorted) against each of the 449 bit strings; random sets of 2..10 keys derived from the encoded string (cut, extended, flipped inside / at / after bit to, same payload + other tail, random), sorted with bytes.Compare (key = how many keys fall before / inside / after the matching block). A case is non-trivial when the bit strings involved are non-empty (and a is '
+         'longer than the payload, flipped around bit to + a structured sweep (payload lengths 1..12 bytes x to in {8n,8n-3,8n-7} x every position of a single differing byte x len(a) in {i+1,n-1,n,n+1}; the same pairs through Cmp; long strings of 16..40 payload bytes differing at bytes 7,8,15,16,n-2,n-1). Every CmpUpto case is also run as Cmp(New(a,0,min(8*len(a),Len(e))),e) (viaNew). Sorted key sets: the 57 plain strings of length <= 2 (sorted) against each of the 449 bit strings; random sets of 2..10 keys derived from the encoded string (cut, extended, flipped inside / at / after bit to, same payload + other tail, random), sorted with bytes.Compare (key = how many keys fall before / inside / after the matching block). Call sequences (Session/scribble): all ordered pairs of a pool of 14 ranges (6 aligned empty ranges of different strings/offsets, 2 unaligned empty, 6 non-empty) + random sessions of 3..8 ranges; the caller overwrites every returned slice (len and spare capacity) with junk. Views: every 2nd Cmp case and every 3rd CmpUpto case is repeated with the encodings (and key) packed back to back in a junk-filled arena. Aliased arguments: every New case is followed by CmpUpto(e[:k], e) for all k with the key a view of the buffer of e itself. A case is non-trivial when the bit strings involved are non-empty (and a is '
          'non-empty); shape key = (op, same byte length?, relation eq/prefix/first differing byte class and bit, to mod 8 = 0?, payload '
          'class <8/8/>8 bytes | CmpUpto branch empty/short/ge, cmpBytes fast path?); distinct = distinct (op,args)',
  'assumptions': ['0 <= from <= to <= 8*len(s) (the domain of New stated in the property); strings are byte lists',
